@@ -134,6 +134,7 @@ def main(argv=None):
     engine_errors = []
     exc_any_total = 0
     assumed_used = set()
+    verified_assumed = set()
     for rep in reports:
         if rep["error"] == "contract-target-missing":
             undecided.append({"obligation": rep["target"], "why": "contract-target-missing"})
@@ -181,6 +182,9 @@ def main(argv=None):
         fn_infos.extend(er.get("functions", []))
         undecided.extend(er.get("undecided", []))
         engine_errors.extend(er.get("errors", []))
+        # optional: targets of contracts that are ASSUMED at their call sites in this pack and were verified on the real body by this
+        # EXTRA in this very run (all their obligations proved): they leave the `assumed_contracts` list of the evidence
+        verified_assumed |= set(er.get("verified_assumed", []) or [])
 
     # ------------------------------------------------------------ verdicts --
     lock_all = load_json("obligations.lock.json", {})
@@ -367,7 +371,8 @@ def main(argv=None):
                 "CPython ast module"],
             "samples": samples,
             "functions_under_contract": fn_infos,
-            "assumed_contracts": sorted({c.target for c in assumed} | assumed_used | set(getattr(pack, "ASSUMED_MODELS", []))),
+            "assumed_contracts": sorted(({c.target for c in assumed} | assumed_used | set(getattr(pack, "ASSUMED_MODELS", []))) - verified_assumed),
+            **({"call_site_contracts_verified_in_this_run": sorted(verified_assumed)} if verified_assumed else {}),
             "bounded_functions_run_in_thorough_tier_only": skipped_bounded,
             "by_backend_vcs": by_backend,
             "second_solver_cross_check": cross,
